@@ -236,6 +236,57 @@ fn run_fst(bin: &Path, dir: &Path, inp: &Input, cfg: &RunCfg, extra_env: &[(Stri
     Outcome { status, timed_out, stderr, output: std::fs::read(&out).ok(), trace: std::fs::read_to_string(&trace).unwrap_or_default() }
 }
 
+/// Offline conservation checker over the H4 trace: the input rows are accounted for by the leaf batches, every
+/// intermediate file is consumed by exactly one union of the next generation, nothing is consumed that was not
+/// produced, and exactly one file (the result) is never consumed. Returns a description of the first breach.
+fn conservation(trace: &str, total_rows: usize, distinct_keys: usize) -> Option<String> {
+    let base = |p: &str| p.rsplit('/').next().unwrap_or(p).to_string();
+    let mut produced: BTreeMap<String, usize> = BTreeMap::new();
+    let mut consumed: BTreeMap<String, usize> = BTreeMap::new();
+    let mut rows = 0usize;
+    for l in trace.lines() {
+        let mut kind = "";
+        let mut fields: BTreeMap<&str, &str> = BTreeMap::new();
+        for tok in l.split_whitespace() {
+            if tok == "kv" || tok == "union" {
+                kind = tok;
+            } else if let Some(p) = tok.find('=') {
+                fields.insert(&tok[..p], &tok[p + 1..]);
+            }
+        }
+        if kind.is_empty() {
+            continue;
+        }
+        *produced.entry(base(fields.get("out").unwrap_or(&""))).or_insert(0) += 1;
+        if kind == "kv" {
+            rows += fields.get("rows").and_then(|s| s.parse::<usize>().ok()).unwrap_or(0);
+        } else {
+            for i in fields.get("inputs").unwrap_or(&"").split(',').filter(|s| !s.is_empty()) {
+                *consumed.entry(base(i)).or_insert(0) += 1;
+            }
+        }
+    }
+    // the hook logs a leaf batch after its rows were sorted and de-duplicated, so the logged rows lie between the
+    // number of distinct keys and the number of input rows
+    if rows > total_rows || rows < distinct_keys {
+        return Some(format!("leaf batches hold {} (de-duplicated) rows but the input has {} rows with {} distinct keys", rows, total_rows, distinct_keys));
+    }
+    if let Some((f, n)) = produced.iter().find(|(_, n)| **n > 1) {
+        return Some(format!("intermediate file {} was produced {} times (name collision)", f, n));
+    }
+    if let Some((f, n)) = consumed.iter().find(|(_, n)| **n > 1) {
+        return Some(format!("intermediate file {} was consumed by {} unions", f, n));
+    }
+    if let Some((f, _)) = consumed.iter().find(|(f, _)| !produced.contains_key(*f)) {
+        return Some(format!("a union consumed {} which no batch produced", f));
+    }
+    let roots: Vec<&String> = produced.keys().filter(|f| !consumed.contains_key(*f)).collect();
+    if total_rows > 0 && roots.len() != 1 {
+        return Some(format!("{} files were produced but never consumed (exactly one result expected): {:?}", roots.len(), roots.iter().take(4).collect::<Vec<_>>()));
+    }
+    None
+}
+
 /// canonical merge tree from the H4 trace: returns (tree fingerprint, worker-assignment fingerprint, #kv batches, #unions, generations)
 fn merge_tree(trace: &str) -> (u64, u64, usize, usize, usize) {
     // file name -> canonical string
@@ -352,6 +403,13 @@ fn judge(inp: &Input, cfg: &RunCfg, o: &Outcome, ev: &mut Ev, trees: &mut HashSe
         }
     };
     let want = model(inp, cfg.mode);
+    let total_rows: usize = inp.files.iter().map(|f| f.len()).sum();
+    if !o.trace.is_empty() || total_rows == 0 {
+        ev.count("trace:conservation-checked");
+        if let Some(why) = conservation(&o.trace, total_rows, want.len()) {
+            ev.violate("batch-conservation", format!("the batch trace breaks conservation (rows accounted for, every intermediate consumed exactly once, one result): {}", why), descr());
+        }
+    }
     let (tree, assign, nkv, nun, gens) = merge_tree(&o.trace);
     trees.insert(tree);
     assigns.insert(assign);
@@ -558,9 +616,9 @@ pub fn run(ctx: &Ctx) -> i32 {
         ev,
         Spec {
             level: "exploration",
-            rule: "one evaluation = one run of the real `fst set|map` binary (unsorted mode) as a subprocess with seeded 0-2 ms delays injected at channel send/receive and around batch construction (hook H4): exit status 0, output opens and verify()s, keys == distinct input keys, every value == sum/max/min over ALL rows of its key, and for inputs without repeated keys the output bytes equal a sorted library build; the H4 batch trace is parsed into the merge tree (which leaf batches met in which union, per generation) and the worker assignment; inputs: 14 shapes (no repeats, repeats far apart, adjacent repeats incl. identical rows, three input files, five input files of which three are empty, one row, empty, five keys x 200 rows, all identical rows, sorted, reverse sorted, 3000 (thorough 10^5) rows with 30% repeats) x batch sizes {1,2,3,7,all} x fd-limit {2,3,15} x threads {1,2,5,16} x {set,sum,max,min}: a systematic core (every input x mode x batch size) plus random combinations; one fixed configuration is repeated under 24 (200) delay seeds to count how many distinct merge trees scheduling alone produces; thorough adds ThreadSanitizer-instrumented and valgrind-memcheck runs; non-trivial = every run; distinct_nontrivial counts runs (distinct parameter/seed combinations) plus distinct merge trees",
+            rule: "one evaluation = one run of the real `fst set|map` binary (unsorted mode) as a subprocess with seeded 0-2 ms delays injected at channel send/receive and around batch construction (hook H4): exit status 0, output opens and verify()s, keys == distinct input keys, every value == sum/max/min over ALL rows of its key, and for inputs without repeated keys the output bytes equal a sorted library build; the H4 batch trace is parsed into the merge tree (which leaf batches met in which union, per generation) and the worker assignment, and an offline conservation checker runs over it (the leaf batches together hold between #distinct keys and #rows rows, every intermediate file produced once and consumed by exactly one union, exactly one unconsumed result); inputs: 14 shapes (no repeats, repeats far apart, adjacent repeats incl. identical rows, three input files, five input files of which three are empty, one row, empty, five keys x 200 rows, all identical rows, sorted, reverse sorted, 3000 (thorough 10^5) rows with 30% repeats) x batch sizes {1,2,3,7,all} x fd-limit {2,3,15} x threads {1,2,5,16} x {set,sum,max,min}: a systematic core (every input x mode x batch size) plus random combinations; one fixed configuration is repeated under 24 (200) delay seeds to count how many distinct merge trees scheduling alone produces; thorough adds ThreadSanitizer-instrumented and valgrind-memcheck runs; non-trivial = every run; distinct_nontrivial counts runs (distinct parameter/seed combinations) plus distinct merge trees",
             assumptions: vec!["keys are [a-z0-9]{1,12} (no CSV quoting, no empty lines), values < 2^32 so sums cannot overflow; fd-limit 1 is excluded as in the statement".into(), "interleavings are sampled, not enumerated: the evidence reports how many distinct groupings were actually observed".into(), "a subprocess hitting the 120 s watchdog is inconclusive, never a violation".into()],
-            floors: vec![("runs", 200), ("runs:mode=Set", 20), ("runs:mode=Sum", 20), ("runs:mode=Max", 20), ("runs:mode=Min", 20), ("runs:no-repeat-inputs-compared-bytewise", 20), ("trace:union-batches", 100), ("max:union-generations", 2), ("distinct-merge-trees-observed", 20)],
+            floors: vec![("runs", 200), ("runs:mode=Set", 20), ("runs:mode=Sum", 20), ("runs:mode=Max", 20), ("runs:mode=Min", 20), ("runs:no-repeat-inputs-compared-bytewise", 20), ("trace:union-batches", 100), ("max:union-generations", 2), ("distinct-merge-trees-observed", 20), ("trace:conservation-checked", 200)],
             exhaustive: Some(false),
         },
     )
